@@ -24,7 +24,27 @@ type Map struct {
 }
 
 func (m Map) P(x, y int) geometry.Point {
+	if m.Name == "special" {
+		return geometry.Point{X: specialFloat(x), Y: specialFloat(y)}
+	}
 	return geometry.Point{X: m.S*float64(x) + m.TX, Y: m.S*float64(y) + m.TY}
+}
+
+// SpecialMap interprets the integers 1000001..1000004 of spec/WriterSpec.tla as NaN, +Inf, -Inf, -0.
+var SpecialMap = Map{"special", 1, 0, 0}
+
+func specialFloat(v int) float64 {
+	switch v {
+	case 1000001:
+		return math.NaN()
+	case 1000002:
+		return math.Inf(1)
+	case 1000003:
+		return math.Inf(-1)
+	case 1000004:
+		return math.Copysign(0, -1)
+	}
+	return float64(v)
 }
 
 var Identity = Map{"id", 1, 0, 0}
